@@ -578,6 +578,8 @@ class SkelEval(Eval):
 
     def ev_call(self, t):
         p, args = t[1], t[2]
+        if p == 'naga::Scalar::float' and len(args) == 1:
+            return V('naga::Scalar', kind=V('naga::ScalarKind::Float'), width=self.ev(args[0]))
         if p == 'Ident::new':
             v = self.ev(args[0])
             return Tok(str(v))
